@@ -328,6 +328,21 @@ func replayOnce(c *Ctx, rf *ReplayFile) (bool, string, error) {
 			return true, fmt.Sprintf("call %d: %s", k+1, v.msg), nil
 		}
 		return false, "every call of the preemptive host world returned the library result", nil
+	case "host-c16-crash":
+		_, err := runHost(c, rf.Host, false)
+		if e, ok := err.(*hostCrashErr); ok {
+			return true, e.Error(), nil
+		}
+		if err != nil {
+			return false, "", err
+		}
+		return false, "the host survived the history", nil
+	case "host-c16-late":
+		k, v := c.lateFails(rf.Host)
+		if v != nil {
+			return true, fmt.Sprintf("call %d: %s", k, v.msg), nil
+		}
+		return false, "every returned string read the same before it was freed", nil
 	case "host-c16", "so-c16":
 		res, err := runHost(c, rf.Host, rf.Kind == "so-c16")
 		if err != nil {
